@@ -103,6 +103,16 @@ Theorem C12_replay_rejected : forall c ops s m chan,
 Proof. exact replay_rejected. Qed.
 Print Assumptions C12_replay_rejected.
 
+(* Non-vacuity of acceptance: a message a sender put on the wire, presented whole and in order to a
+   receiver on the same channel (or one that has no id yet) whose high-water mark is still below
+   it, is accepted and moves the high-water mark to its last number. *)
+Theorem C12_in_order_accepted : forall c ops s m,
+  exec c (init c) ops = Some s -> In m (sent s) ->
+  r_last s < ch_seq (hd ch0 m) -> (c_rchan c = 0 \/ c_rchan c = c_schan c) ->
+  receive (r_last s) (c_rchan c) m = VOk (last_seq m).
+Proof. exact in_order_accepted. Qed.
+Print Assumptions C12_in_order_accepted.
+
 (* --- correspondence ---------------------------------------------------------------------- *)
 (* The executable oracle applied to the implementation's observations holds on the model for
    every history (including histories that exhaust the senders' counters). *)
